@@ -105,7 +105,7 @@ func renderedText(v ssa.Value, depth int) bool {
 			if isDynamicCall(&c.Call) {
 				return true // the recursive helper (called through its variable)
 			}
-			if f := c.Call.StaticCallee(); f != nil && f.Name() == "dumpLeafNode" {
+			if f := c.Call.StaticCallee(); f != nil && nm(f) == "dumpLeafNode" {
 				return true
 			}
 		}
@@ -235,7 +235,7 @@ func ruleLeafTypes(w *World, r *Report) {
 		// arguments of valNode
 		EachInstr(g, func(in ssa.Instruction) {
 			c, ok := in.(*ssa.Call)
-			if !ok || c.Call.StaticCallee() == nil || c.Call.StaticCallee().Name() != "valNode" {
+			if !ok || c.Call.StaticCallee() == nil || nm(c.Call.StaticCallee()) != "valNode" {
 				return
 			}
 			arg := c.Call.Args[len(c.Call.Args)-1]
